@@ -225,7 +225,19 @@ def _run_runs(case):
   for k in range(case['runs']):
     holder = {}
     test, recs, events = _mk_test('r%d' % k, case['n'], mids, holder)
-    test.execute()
+    if case.get('cbexit') and k % 2 == 0:
+      # the output stage is left by something that is not an Exception (sys.exit() in a callback, Ctrl-C): the run has
+      # ended all the same, its handler must be gone
+      def leaving(record):
+        raise SystemExit(4)
+      test.add_output_callbacks(leaving)
+      try:
+        test.execute()
+        facts.append('X:execute-swallowed-SystemExit-of-a-callback')
+      except SystemExit:
+        pass
+    else:
+      test.execute()
     rec = recs[0]
     uid = [l.logger_name for l in rec.log_records if l.logger_name.startswith('openhtf.test_record.')][0].split('.')[2]
     ops.append('s:' + _hx(uid))
@@ -605,6 +617,7 @@ def gen_cases(rng, tier):
   for runs in (1, 2, 3):
     for n in (1, 2):
       cases.append({'kind': 'runs', 'runs': runs, 'n': n})
+      cases.append({'kind': 'runs', 'runs': runs, 'n': n, 'cbexit': True})
   for i in range(240 if quick else 4000):
     r = rng.derive('c%d' % i)
     cases.append({'kind': 'conc', 'n': r.choice([1, 2, 3]), 'short': i % 2 == 1, 'rseed': r.getrandbits(32),
